@@ -709,11 +709,25 @@ def extract_h2(repo, parents):
     txt = ast.unparse(fn3)
     for frag in ["new_max_streams = min(max_concurrent_streams.new_value, self._h2_state.local_settings.max_concurrent_streams)",
                  "if new_max_streams and new_max_streams != self._max_streams:",
-                 "while new_max_streams > self._max_streams:\n                await self._max_streams_semaphore.release()\n                self._max_streams += 1",
-                 "while new_max_streams < self._max_streams:\n                await self._max_streams_semaphore.acquire()\n                self._max_streams -= 1"]:
+                 "while new_max_streams > self._max_streams:\n                if self._max_streams_debt > 0:\n                    self._max_streams_debt -= 1\n"
+                 "                else:\n                    await self._max_streams_semaphore.release()\n                self._max_streams += 1",
+                 "if new_max_streams < self._max_streams:\n                self._max_streams_debt += self._max_streams - new_max_streams\n"
+                 "                self._max_streams = new_max_streams"]:
         if frag not in txt:
             raise ExtractError(f"_receive_remote_settings_change: not recognised, missing `{frag.splitlines()[0]}`")
-    out.append("/-- `_receive_remote_settings_change` has the shape modelled by `H2.Slots.settings` (release up, acquire down, 0 ignored) -/")
+    if "acquire" in txt:
+        raise ExtractError("_receive_remote_settings_change: the reader must not wait for the semaphore")
+    fn4 = _find_func(tree, "_response_closed", cls=cls)
+    if ("if self._max_streams_debt > 0:\n        self._max_streams_debt -= 1\n    else:\n        await self._max_streams_semaphore.release()"
+            not in ast.unparse(fn4)):
+        raise ExtractError("_response_closed: `debt -= 1 if debt else release()` not recognised")
+    loops = [n for n in ast.walk(fn) if isinstance(n, ast.While) and "self._max_streams_semaphore.acquire()" in ast.unparse(n.body[0])]
+    want_loop = ("while True:\n    await self._max_streams_semaphore.acquire()\n    if self._max_streams_debt > 0:\n"
+                 "        self._max_streams_debt -= 1\n        continue\n    break")
+    if len(loops) != 1 or ast.unparse(loops[0]) != want_loop:
+        raise ExtractError("handle_async_request: the acquire loop (withhold permits while debt is outstanding) not recognised")
+    out.append("/-- `_receive_remote_settings_change`, `_response_closed` and the acquire loop have the shapes modelled by `H2.Slots` "
+               "(raise: pay debt, then release; lower: add debt, never wait; close: pay debt or release; acquire: withhold while debt) -/")
     out.append("def settingsChangeShapeKnown : Bool := true")
     # ---- every `raise ConnectionNotAvailable()` -------------------------------------------------
     rows = []
